@@ -501,7 +501,10 @@ where
             arr.data[1..].iter().copied().fold(first, fut).into()
         });
     }
-    fast_reduce(arr.convert(), identity, default, depth, fuu, env)
+    // What is known about the elements, like being boolean, does not hold for their reduction
+    let mut arr: Array<U> = arr.convert();
+    arr.meta.take_value_flags();
+    fast_reduce(arr, identity, default, depth, fuu, env)
 }
 
 fn fast_reduce<T>(
@@ -880,24 +883,24 @@ pub fn scan(ops: Ops, env: &mut Uiua) -> UiuaResult {
                 Primitive::Le => fast_scan(bytes, other_is_le::generic).into(),
                 Primitive::Gt => fast_scan(bytes, other_is_gt::generic).into(),
                 Primitive::Ge => fast_scan(bytes, other_is_ge::generic).into(),
-                Primitive::Add => fast_scan::<f64>(bytes.convert(), add::num_num).into(),
+                Primitive::Add => fast_scan::<f64>(bytes.convert_for_arithmetic(), add::num_num).into(),
                 Primitive::Sub if flipped => {
-                    fast_scan::<f64>(bytes.convert(), flip(sub::num_num)).into()
+                    fast_scan::<f64>(bytes.convert_for_arithmetic(), flip(sub::num_num)).into()
                 }
-                Primitive::Sub => fast_scan::<f64>(bytes.convert(), sub::num_num).into(),
-                Primitive::Mul => fast_scan::<f64>(bytes.convert(), mul::num_num).into(),
+                Primitive::Sub => fast_scan::<f64>(bytes.convert_for_arithmetic(), sub::num_num).into(),
+                Primitive::Mul => fast_scan::<f64>(bytes.convert_for_arithmetic(), mul::num_num).into(),
                 Primitive::Div if flipped => {
-                    fast_scan::<f64>(bytes.convert(), flip(div::num_num)).into()
+                    fast_scan::<f64>(bytes.convert_for_arithmetic(), flip(div::num_num)).into()
                 }
-                Primitive::Div => fast_scan::<f64>(bytes.convert(), div::num_num).into(),
+                Primitive::Div => fast_scan::<f64>(bytes.convert_for_arithmetic(), div::num_num).into(),
                 Primitive::Modulo if flipped => {
-                    fast_scan::<f64>(bytes.convert(), flip(modulo::num_num)).into()
+                    fast_scan::<f64>(bytes.convert_for_arithmetic(), flip(modulo::num_num)).into()
                 }
-                Primitive::Modulo => fast_scan::<f64>(bytes.convert(), modulo::num_num).into(),
+                Primitive::Modulo => fast_scan::<f64>(bytes.convert_for_arithmetic(), modulo::num_num).into(),
                 Primitive::Atan if flipped => {
-                    fast_scan::<f64>(bytes.convert(), flip(atan2::num_num)).into()
+                    fast_scan::<f64>(bytes.convert_for_arithmetic(), flip(atan2::num_num)).into()
                 }
-                Primitive::Atan => fast_scan::<f64>(bytes.convert(), atan2::num_num).into(),
+                Primitive::Atan => fast_scan::<f64>(bytes.convert_for_arithmetic(), atan2::num_num).into(),
                 Primitive::Min => {
                     sorted_down = true;
                     if bytes.rank() == 1 && bytes.meta.is_sorted_down() {
@@ -1084,11 +1087,11 @@ pub fn unscan(ops: Ops, env: &mut Uiua) -> UiuaResult {
         },
         Value::Byte(bytes) => match f.node.as_flipped_primitive() {
             Some((Primitive::Sub, false)) => {
-                env.push(fast_invscan(bytes.convert(), sub::num_num));
+                env.push(fast_invscan(bytes.convert_for_arithmetic(), sub::num_num));
                 return Ok(());
             }
             Some((Primitive::Div, false)) => {
-                env.push(fast_invscan(bytes.convert(), div::num_num));
+                env.push(fast_invscan(bytes.convert_for_arithmetic(), div::num_num));
                 return Ok(());
             }
             _ => xs = Value::Byte(bytes),
